@@ -330,7 +330,7 @@ fn arith_history(rng: &mut Rng, st: &mut Stats, exact: bool) {
                     let e = match res {
                         Ok(e) => e,
                         Err(e) => {
-                            if e.msg().contains("both zero") {
+                            if crate::core::is_zero_pow_zero(e.msg()) {
                                 st.bump("zero_to_the_zero_errors_not_judged");
                                 return None;
                             }
